@@ -55,7 +55,7 @@ Definition cast {A B} (r : res A) : res B :=
 
 (* ciborium::value::Value restricted to what dec_value can build *)
 Inductive cval :=
-| VInt (z : Z)            (* Integer (i128 inside; here u64 range or [-2^63, -1]) *)
+| VInt (z : Z)            (* Integer (i128 inside; here -2^64 .. 2^64-1) *)
 | VBytes (l : bytes)
 | VText (l : bytes)       (* validated UTF-8 bytes *)
 | VArr (l : list cval)
@@ -173,6 +173,23 @@ Definition read_fbits (c : cfg) (b : bytes) (i n : N) : res (N * N) :=
     end
   else Err EIncomplete.
 
+(* need(bytes, idx, 2); u16::from_be_bytes([bytes[*idx], bytes[*idx + 1]]) *)
+Definition peek2 (c : cfg) (b : bytes) (i : N) : res N :=
+  if need b i 2 then
+    match get b i with
+    | None => Panic PIndex
+    | Some h0 =>
+      match uadd c i 1 with
+      | None => Panic PArith
+      | Some i1 =>
+        match get b i1 with
+        | None => Panic PIndex
+        | Some h1 => Val (h0 * 256 + h1)
+        end
+      end
+    end
+  else Err EIncomplete.
+
 (* ------------------------------------------------------------------ floats (bit level) *)
 
 Definition nan_bits : N := 0x7ff8000000000000.
@@ -215,14 +232,14 @@ Definition f_decomp (x : N) : N * Z :=
   let t := ctz M in
   (M / 2 ^ t, (E + Z.of_N t)%Z).
 
-(* is_exact_int: finite, fract() == 0, and (f as i128) as f64 == f  <=>  integral and |f| <= 2^127 *)
+(* is_exact_int: finite, fract() == 0, INT_MIN_F <= f < INT_END_F (-2^64 <= f < 2^64), (f as i128) as f64 == f *)
 Definition is_exact_int (x : N) : bool :=
   if f_exp x =? 2047 then false
   else let '(M, E) := f_decomp x in
        if M =? 0 then true
        else if (E <? 0)%Z then false
-       else if (127 <? E)%Z then false
-       else M * 2 ^ Z.to_N E <=? 2 ^ 127.
+       else if (64 <? E)%Z then false
+       else if x / 2 ^ 63 =? 0 then M * 2 ^ Z.to_N E <? two64 else M * 2 ^ Z.to_N E <=? two64.
 
 (* exactly representable in a format with p significand bits, least exponent lo, top exponent hi *)
 Definition fits (p : N) (lo hi : Z) (x : N) : bool :=
@@ -299,7 +316,7 @@ Definition dec_scalar (major info kl : N) (s : st) : res cval * st :=
     | Val (n, i) =>
       let s := set_idx s i in
       if major =? 0 then (Val (VInt (Z.of_N n)), s)
-      else if n <? two64 / 2 then (Val (VInt (- 1 - Z.of_N n)), s) else (Err EIntRange, s)
+      else if n <? two64 then (Val (VInt (- 1 - Z.of_N n)), s) else (Err EIntRange, s)
     | r => (cast r, s)
     end
   else if major <=? 3 then
@@ -329,10 +346,15 @@ Definition dec_scalar (major info kl : N) (s : st) : res cval * st :=
     else if info =? 21 then (Val (VBool true), s)
     else if info =? 22 then (Val VNull, s)
     else if info =? 25 then
-      match read_fbits c b (idx s) 2 with
-      | Val (h, i) =>
-        let s := set_idx s i in let f := f64_of_f16 h in
-        if is_exact_int f then (Err EFloatShouldBeInt, s) else (Val (VFloat f), s)
+      match peek2 c b (idx s) with
+      | Val half_bits =>
+        match read_fbits c b (idx s) 2 with
+        | Val (h, i) =>
+          let s := set_idx s i in let f := f64_of_f16 h in
+          if f_is_nan f && negb (half_bits =? 32256) then (Err ENonCanonFloat, s)   (* only 0x7e00 *)
+          else if is_exact_int f then (Err EFloatShouldBeInt, s) else (Val (VFloat f), s)
+        | r => (cast r, s)
+        end
       | r => (cast r, s)
       end
     else if info =? 26 then
